@@ -1,0 +1,8 @@
+//go:build !verif
+// +build !verif
+
+package cluster
+
+import "google.golang.org/grpc"
+
+func (this *Conn) verifDialOptions() []grpc.DialOption { return nil }
